@@ -8,6 +8,7 @@ import (
 	"io"
 	"os"
 	"runtime/pprof"
+	"sort"
 	"strconv"
 	"strings"
 )
@@ -349,6 +350,18 @@ func Repl(env *Zlisp, cfg *ZlispConfig) {
 	}
 }
 
+// printCounts prints the call counts in name order.
+func printCounts(counts map[string]int) {
+	names := make([]string, 0, len(counts))
+	for name := range counts {
+		names = append(names, name)
+	}
+	sort.Strings(names)
+	for _, name := range names {
+		fmt.Printf("\t%s: %d\n", name, counts[name])
+	}
+}
+
 func runScript(env *Zlisp, fname string, cfg *ZlispConfig) {
 	file, err := os.Open(fname)
 	if err != nil {
@@ -369,13 +382,9 @@ func runScript(env *Zlisp, fname string, cfg *ZlispConfig) {
 	_, err = env.Run()
 	if cfg.CountFuncCalls {
 		fmt.Println("Pre:")
-		for name, count := range precounts {
-			fmt.Printf("\t%s: %d\n", name, count)
-		}
+		printCounts(precounts)
 		fmt.Println("Post:")
-		for name, count := range postcounts {
-			fmt.Printf("\t%s: %d\n", name, count)
-		}
+		printCounts(postcounts)
 	}
 	if err != nil {
 		fmt.Print(env.GetStackTrace(err))
